@@ -81,3 +81,11 @@ package fclient
 //@   ensures hit-not-expired: result[1] ==> (result[0] != nil && unixNano(result[0].expires) > nowNano)
 //@   ensures own-host: result[0] != nil ==> result[0].addrs == c.resolver.LookupIPAddr(nil, name)[0]
 //@   loop 1: invariant c.entries != nil && (forall n string :: n in c.entries ==> (c.entries[n] != nil && c.entries[n].addrs == c.resolver.LookupIPAddr(nil, n)[0])) && locked(c, "mutex")
+
+//@ func (*DNSCache).DialContext
+//@   property C19
+//@   nosafety
+//@   requires c != nil && c.resolver != nil && !locked(c, "mutex") && c.size >= 1
+//@   ensures lock-released: !locked(c, "mutex")
+//@   loop 1: invariant !locked(c, "mutex")
+//@   loop 2: invariant !locked(c, "mutex")
